@@ -7,19 +7,25 @@
 (* (configuration, script) with the set of results Verdict allows.          *)
 EXTENDS Setup, TLC, Json
 
-CONSTANTS XModes, XVerify, XConnectors, XTimeouts, XVias,
+CONSTANTS XModes, XVerify, XConnectors, XTimeouts, XVias, XHosts, XStores,
           XResps, XRcs, XInjs, XHss,
           XFaultHss          \* handshake behaviours offered after a refusal / garbage / wrong-ID reply
 VARIABLES cfg, sc, s
 vars == <<cfg, sc, s>>
 
-XCfgs == [mode : XModes, verify : XVerify, connector : XConnectors, timeout : XTimeouts, via : XVias]
+(* the base configurations (DNS name, system trust store) in full; the other addressing / trust-store combinations for the
+   dialled connection only *)
+Base(c) == c.host = "name" /\ c.store = "system"
+XCfgs == {c \in [mode : XModes, verify : XVerify, connector : XConnectors, timeout : XTimeouts, via : XVias, host : XHosts, store : XStores] :
+            Base(c) \/ c.via = "dial"}
 XScripts(c) == {x \in Scripts :
                   /\ ScriptFor(c, x)
                   /\ x.resp \in XResps \cup {"na"} /\ x.inj \in XInjs /\ x.hs \in XHss
                   /\ x.rc \in XRcs \cup {0}
                   /\ (x.resp \in {"refuse", "garbage", "wrongid"} => x.hs \in XFaultHss)
-                  /\ (x.resp \in {"close", "hangup", "stall"} => x.hs = "trusted")}      \* never reached
+                  /\ (x.resp \in {"close", "hangup", "stall"} => x.hs = "trusted")      \* never reached
+                  (* off the base: the scripts in which a certificate is judged, and the honest refusal *)
+                  /\ (Base(c) \/ (x.hs \in Certs /\ x.inj = "none" /\ x.resp \in {"na", "success", "refuse"}))}
 
 Alphabet ==
   {[e |-> "accept"], [e |-> "hello"]}
